@@ -78,12 +78,15 @@ func allChecksRaw() []*Check {
 			Quick: []Job{
 				gj("C02.n5", "VerifC02", 5, "C02.iff/ok", "C02.iff/jump", "C02.iff/noroot", "C02.iff/nobullet", "C02.iff/emptytext", "C02.row/jump", "C02.row/nobullet", "C02.complete/output", "C02.complete/walk"),
 				{Name: "C02.LMalformed.1", Pkg: "markdown", Entry: "VerifLMalformed", N: 1, RealParse: true, Expect: []string{"LM.nobullet", "LM.emptytext", "LM.badindent", "LM.mixed", "LM.otherchar", "LM.blank"}},
+				{Name: "C02.LParse.2", Pkg: "markdown", Entry: "VerifLParse", N: 2, RealParse: true, Expect: []string{"LP.accept", "LP.hierarchy", "LP.text", "LP.next", "LP.end"}},
 			},
 			Thorough: []Job{
 				gj("C02.n7", "VerifC02", 7, "C02.iff/ok", "C02.iff/jump", "C02.iff/noroot", "C02.iff/nobullet", "C02.iff/emptytext", "C02.row/jump", "C02.row/nobullet", "C02.complete/output", "C02.complete/walk"),
 				{Name: "C02.LMalformed.2", Pkg: "markdown", Entry: "VerifLMalformed", N: 2, RealParse: true, Expect: []string{"LM.nobullet", "LM.emptytext", "LM.badindent", "LM.mixed", "LM.otherchar", "LM.blank"}},
+				{Name: "C02.LParse.2", Pkg: "markdown", Entry: "VerifLParse", N: 2, RealParse: true, Expect: []string{"LP.accept", "LP.hierarchy", "LP.text", "LP.next", "LP.end"}},
+				{Name: "C02.LAny.3", Pkg: "markdown", Entry: "VerifLAny", N: 3, RealParse: true, Expect: []string{"LA.oneof", "LA.hierarchy", "LA.text", "LA.errclass"}},
 			},
-			Bounds: "documents of N rows (quick 5, thorough 7): item depths in [0, prev+2] (the first indented row of a document defines the unit, so its depth is 1), at most one row of class no-bullet/empty-text at any position and depth; routes: iterator output, non-iterator output, walk (generate() shared with mkdir/verify). After the first offending row one more row is generated. Byte level: the malformation classes on the real parser (L-malformed lemma, shared with C15). Outside: several malformed rows, jumps by more than 2 (same code path), massive mode (C10).",
+			Bounds: "documents of N rows (quick 5, thorough 7): item depths in [0, prev+2] (the first indented row of a document defines the unit, so its depth is 1), at most one row of class no-bullet/empty-text at any position and depth; routes: iterator output, non-iterator output, walk (generate() shared with mkdir/verify). After the first offending row one more row is generated. Byte level: the malformation classes and the acceptance half of the Parse contract on the real parser (L-malformed and L-parse lemmas, shared with C15: every well-formed row spelling -- any bullet, indentation unit, text bytes -- is accepted with the right depth and text). Outside: several malformed rows, jumps by more than 2 (same code path), massive mode (C10).",
 			Assume: append([]string{parseContract}, commonAssume...),
 		},
 		{
